@@ -358,6 +358,24 @@ def explore_processor(case, seed=0, max_rows=400):
                 cands = [dv for dv in gq.all_des_vars if dv.is_discrete and dv.n_opts >= 2 and not isinstance(dv.node, _CCN)]
             except Exception as e:
                 return fail('processor-raises:%s' % type(e).__name__, '%s encoder: %s: %s' % (label, type(e).__name__, e))
+            # a rejected fix (connection-choice variables cannot be fixed) must leave the problem as it was
+            conn_dvs = [dv for dv in gq.all_des_vars if dv.is_discrete and isinstance(dv.node, _CCN)]
+            if conn_dvs:
+                before = ([dv.name for dv in gq.des_vars], dict(gq.fixed_values))
+                dvc = rng.choice(conn_dvs)
+                try:
+                    gq.fix_des_var(dvc, 0)
+                    rejected = False
+                except RuntimeError:
+                    rejected = True
+                except Exception as e:
+                    return fail('fix-or-free-raises:%s' % type(e).__name__, '%s encoder, connection variable %s: %s' % (label, dvc.name, e))
+                after = ([dv.name for dv in gq.des_vars], dict(gq.fixed_values))
+                if rejected and after != before:
+                    return fail('rejected-fix-changes-the-problem', '%s encoder: fix_des_var(%s) raised, but the free variables went from %s to %s and fixed_values from %s to %s' % (
+                        label, dvc.name, before[0], after[0], before[1], after[1]))
+                if not rejected:
+                    gq.free_des_var(dvc)
             if not cands:
                 continue
             combos = [(dv, v) for dv in cands for v in range(dv.n_opts)]
